@@ -17,6 +17,19 @@
                                                then Unavailable)
      Pull           [start .. end]             snapshot + Listen (both under the read lock)
 
+   Publication is TICKETED (pkg/resource/turnstile.go): every commit takes the next number of its
+   resource under the write lock (st_cntv / st_cntc), and its publication enters a turnstile that
+   lets the commits through in the order of their numbers (st_leftv / st_leftc = the number of the
+   last commit that has left).  A Set / Update parked at *.publish holds its number (st_tkt); its
+   publish step is ENABLED only when every earlier commit has left.  A Delete commits and
+   publishes under the write lock: in the code it would take the lock, commit, and wait in the
+   turnstile HOLDING the lock until the earlier publications have left (which need no lock).
+   Nothing else can touch the collection meanwhile, so that execution is the one in which the
+   Delete takes the lock only when the turnstile is free: the committing Delete step is modelled
+   as DISABLED while an earlier commit is unpublished, not as a blocking step.  A disabled step
+   named by a schedule changes nothing (it is counted in st_stutter, like an entry naming an
+   ended thread).  v1 = true switches the turnstile off: the code before that repair.
+
    Pointer identity of *item is a version stamp: every save allocates a new item, modelled by a
    stamp taken from a global save counter.  Over the abstract message algebra of Resource/Impl.v.
    No proofs here. *)
@@ -30,6 +43,8 @@ Fixpoint set_nth {A} (n : nat) (x : A) (l : list A) : list A :=
   | _ :: r, O => x :: r
   | y :: r, S n' => y :: set_nth n' x r
   end.
+
+Definition olist {A} (o : option A) : list A := match o with Some x => [x] | None => [] end.
 
 Section Lts.
   Variable M : Type.
@@ -242,13 +257,16 @@ Section Lts.
     end.
 
   (* ---- subscribers: the snapshot taken by onUpdate and the raw events delivered since ---- *)
-  Record vsub := mkVS { vs_tid : nat; vs_ro : ropts; vs_at : vstate; vs_evs : list vevent }.
+  (* vs_left / cs_left (ghost): the last commit that had left the turnstile when the subscription was
+     registered; cs_cnt: the commit counter read with the snapshot (the code's `seeded`) *)
+  Record vsub := mkVS { vs_tid : nat; vs_ro : ropts; vs_at : vstate; vs_evs : list vevent; vs_left : nat }.
   (* cs_skip: the threads whose commit the snapshot already shows and whose publication is still to
      come.  The code numbers the commits and drops the changes numbered up to the snapshot's; with
      one call per thread those are exactly the publications of the threads parked at coll.publish
      when the snapshot is taken (a Delete publishes inside its commit step).  An updates-only
      subscription takes no snapshot and drops nothing. *)
-  Record csub := mkCS { cs_tid : nat; cs_ro : ropts; cs_at : cstate; cs_evs : list cevent; cs_skip : list nat }.
+  Record csub := mkCS { cs_tid : nat; cs_ro : ropts; cs_at : cstate; cs_evs : list cevent; cs_skip : list nat;
+                        cs_left : nat; cs_cnt : nat }.
 
   Record state := mkSt {
     st_w : world;
@@ -262,8 +280,18 @@ Section Lts.
     st_pendv : list nat;                       (* ghost: committed, not yet published (commit order) *)
     st_pendc : list nat;                       (* same for the collection; read by a subscribe step (cs_skip) *)
     st_overlap : bool;                         (* a commit happened while another was unpublished *)
-    st_reordered : bool                        (* a publication overtook an earlier commit *)
+    st_reordered : bool;                       (* a publication overtook an earlier commit *)
+    (* the turnstiles: commit counter and last commit that has left, per resource *)
+    st_cntv : nat; st_leftv : nat;
+    st_cntc : nat; st_leftc : nat;
+    st_tkt : nat -> nat;                       (* the commit number a thread parked at *.publish holds *)
+    (* ghost: every commit's event, in commit order (commit n is element n-1) *)
+    st_logv : list vevent;
+    st_logc : list cevent
   }.
+
+  (* true: the code before the turnstile (publication not ordered with the commits) *)
+  Variable v1 : bool.
 
   Variable prog : list call.
 
@@ -271,60 +299,106 @@ Section Lts.
   Definition is_nil {A} (l : list A) : bool := match l with [] => true | _ => false end.
   Definition head_is (t : nat) (l : list nat) : bool := match l with x :: _ => Nat.eqb x t | [] => false end.
 
+  (* may the step of thread t (parked at p, about to have effect eff) proceed?  turnstile.enter(n)
+     returns when done = n - 1 *)
+  Definition gate_open (t : nat) (s : state) (p : pc) (eff : effect) : bool :=
+    v1 ||
+    match p, eff with
+    | PSavedV _ _, _ => Nat.eqb (st_tkt s t) (S (st_leftv s))
+    | PSavedC _ _, _ => Nat.eqb (st_tkt s t) (S (st_leftc s))
+    | PDel _ _, EPubC _ => Nat.eqb (st_leftc s) (st_cntc s)     (* its own commit would be st_cntc + 1 *)
+    | _, _ => true
+    end.
+
+  (* a schedule entry that names no live thread, or a thread whose step is disabled *)
+  Definition stutter (s : state) : state :=
+    mkSt (st_w s) (st_pcs s) (st_vsubs s) (st_csubs s) (st_wit s) (S (st_k s)) (S (st_stutter s))
+         (st_pendv s) (st_pendc s) (st_overlap s) (st_reordered s)
+         (st_cntv s) (st_leftv s) (st_cntc s) (st_leftc s) (st_tkt s) (st_logv s) (st_logc s).
+
+  (* what a step does to the publication pipeline, read off its pcs and its effect *)
+  Definition is_pv (p : pc) : bool := match p with PSavedV _ _ => true | _ => false end.
+  Definition is_pc (p : pc) : bool := match p with PSavedC _ _ => true | _ => false end.
+  Definition saved_v (p' : pc) : option vevent := match p' with PSavedV _ e => Some e | _ => None end.
+  Definition saved_c (p' : pc) : option cevent := match p' with PSavedC _ e => Some e | _ => None end.
+  (* a Delete commits and publishes in one step *)
+  Definition del_ev (p : pc) (eff : effect) : option cevent :=
+    match p, eff with PDel _ _, EPubC e => Some e | _, _ => None end.
+  Definition is_some {A} (o : option A) : bool := match o with Some _ => true | None => false end.
+
   Definition step (t : nat) (s : state) : state :=
     match nth_error prog t, nth_error (st_pcs s) t with
     | Some c, Some p =>
         match trans c p (st_w s) with
         | Some (p', w', eff) =>
+          if gate_open t s p eff then
             let wit' := match predicted c p, predicted c p' with
                         | None, Some r => st_wit s ++ [(t, r, st_k s)]
                         | _, _ => st_wit s
                         end in
-            let del_commit := match p, eff with PDel _ _, EPubC _ => true | _, _ => false end in
-            let pendv' := match p' with PSavedV _ _ => st_pendv s ++ [t] | _ => drop_tid t (st_pendv s) end in
-            let pendc' := match p' with PSavedC _ _ => st_pendc s ++ [t] | _ => drop_tid t (st_pendc s) end in
+            let del_commit := is_some (del_ev p eff) in
+            let pendv' := if is_some (saved_v p') then st_pendv s ++ [t] else drop_tid t (st_pendv s) in
+            let pendc' := if is_some (saved_c p') then st_pendc s ++ [t] else drop_tid t (st_pendc s) in
             let overlap' :=
               st_overlap s ||
-              match p' with
-              | PSavedV _ _ => negb (is_nil (st_pendv s))
-              | PSavedC _ _ => negb (is_nil (st_pendc s))
-              | _ => del_commit && negb (is_nil (st_pendc s))
-              end in
+              (if is_some (saved_v p') then negb (is_nil (st_pendv s))
+               else if is_some (saved_c p') then negb (is_nil (st_pendc s))
+               else del_commit && negb (is_nil (st_pendc s))) in
             let reordered' :=
               st_reordered s ||
-              match p with
-              | PSavedV _ _ => negb (head_is t (st_pendv s))
-              | PSavedC _ _ => negb (head_is t (st_pendc s))
-              | _ => del_commit && negb (is_nil (st_pendc s))
-              end in
+              (if is_pv p then negb (head_is t (st_pendv s))
+               else if is_pc p then negb (head_is t (st_pendc s))
+               else del_commit && negb (is_nil (st_pendc s))) in
             let vsubs' := match eff with
-                          | EPubV e => map (fun u => mkVS (vs_tid u) (vs_ro u) (vs_at u) (vs_evs u ++ [e])) (st_vsubs s)
-                          | ESubV ro => st_vsubs s ++ [mkVS t ro (w_v (st_w s)) []]
+                          | EPubV e => map (fun u => mkVS (vs_tid u) (vs_ro u) (vs_at u) (vs_evs u ++ [e]) (vs_left u)) (st_vsubs s)
+                          | ESubV ro => st_vsubs s ++ [mkVS t ro (w_v (st_w s)) [] (st_leftv s)]
                           | _ => st_vsubs s
                           end in
             let csubs' := match eff with
                           | EPubC e => map (fun u => if existsb (Nat.eqb t) (cs_skip u) then u
-                                                     else mkCS (cs_tid u) (cs_ro u) (cs_at u) (cs_evs u ++ [e]) (cs_skip u))
+                                                     else mkCS (cs_tid u) (cs_ro u) (cs_at u) (cs_evs u ++ [e]) (cs_skip u)
+                                                               (cs_left u) (cs_cnt u))
                                            (st_csubs s)
-                          | ESubC ro => st_csubs s ++ [mkCS t ro (w_c (st_w s)) [] (if v0 || ro_updates_only ro then [] else st_pendc s)]
+                          | ESubC ro => st_csubs s ++ [mkCS t ro (w_c (st_w s)) [] (if v0 || ro_updates_only ro then [] else st_pendc s)
+                                                            (st_leftc s) (st_cntc s)]
                           | _ => st_csubs s
                           end in
+            (* the turnstiles: a save takes the next number; a publication leaves with its number;
+               a Delete takes the next number and leaves at once *)
+            let cntv' := if is_some (saved_v p') then S (st_cntv s) else st_cntv s in
+            let leftv' := if is_pv p then st_tkt s t else st_leftv s in
+            let cntc' := if is_some (saved_c p') || del_commit then S (st_cntc s) else st_cntc s in
+            let leftc' := if is_pc p then st_tkt s t else if del_commit then S (st_cntc s) else st_leftc s in
+            let tkt' := if is_some (saved_v p') then (fun x => if Nat.eqb x t then S (st_cntv s) else st_tkt s x)
+                        else if is_some (saved_c p') then (fun x => if Nat.eqb x t then S (st_cntc s) else st_tkt s x)
+                        else st_tkt s in
+            let logv' := st_logv s ++ olist (saved_v p') in
+            let logc' := st_logc s ++ olist (saved_c p') ++ olist (del_ev p eff) in
             mkSt w' (set_nth t p' (st_pcs s)) vsubs' csubs' wit' (S (st_k s)) (st_stutter s)
-                 pendv' pendc' overlap' reordered'
-        | None =>
-            mkSt (st_w s) (st_pcs s) (st_vsubs s) (st_csubs s) (st_wit s) (S (st_k s)) (S (st_stutter s))
-                 (st_pendv s) (st_pendc s) (st_overlap s) (st_reordered s)
+                 pendv' pendc' overlap' reordered' cntv' leftv' cntc' leftc' tkt' logv' logc'
+          else stutter s
+        | None => stutter s
         end
-    | _, _ =>
-        mkSt (st_w s) (st_pcs s) (st_vsubs s) (st_csubs s) (st_wit s) (S (st_k s)) (S (st_stutter s))
-             (st_pendv s) (st_pendc s) (st_overlap s) (st_reordered s)
+    | _, _ => stutter s
+    end.
+
+  (* would the step of thread t do something? *)
+  Definition enabled (t : nat) (s : state) : bool :=
+    match nth_error prog t, nth_error (st_pcs s) t with
+    | Some c, Some p =>
+        match trans c p (st_w s) with
+        | Some (p', w', eff) => gate_open t s p eff
+        | None => false
+        end
+    | _, _ => false
     end.
 
   (* a schedule: "let thread t run to its next yield point or its end" *)
   Definition run (sched : list nat) (s : state) : state := fold_left (fun s t => step t s) sched s.
 
   Definition init (v : vstate) (c : cstate) : state :=
-    mkSt (mkWd v c (fun _ => 0) 0) (map (fun _ => PStart) prog) [] [] [] O O [] [] false false.
+    mkSt (mkWd v c (fun _ => 0) 0) (map (fun _ => PStart) prog) [] [] [] O O [] [] false false
+         O O O O (fun _ => O) [] [].
 
   Definition is_done (p : pc) : bool := match p with PDone _ => true | _ => false end.
   Definition all_done (s : state) : bool := forallb is_done (st_pcs s).
@@ -370,7 +444,6 @@ Section Lts.
     filter (fun e => Nat.eqb (wit_tid e) t) wit.
 End Lts.
 
-Definition olist {A} (o : option A) : list A := match o with Some x => [x] | None => [] end.
 
 Arguments CSet {M writer rmask} msg o.
 Arguments CUpdate {M writer rmask} id msg o.
